@@ -477,7 +477,40 @@ def fits_degree(points, hi, p):
     return all(x == 0 for x in cur)
 
 
-def check_degrees(pre, ssa, p, base, direction, names, max_steps=400, idoms=None, audit=None, stats=None):
+def loop_control_names(pre):
+    """(kind, name) of the signals / parameters on which a loop condition depends: the names read by the condition that
+    ends a loop header block, closed under the assignments to the locals among them (one syntactic closure over all
+    statements of the definition)."""
+    blocks = pre[4][1:]
+    headers = [b for b in blocks if any(int(q) >= int(b[1]) for q in b[4])]
+    names = set()
+
+    def reads(x, acc):
+        if isinstance(x, list) and x:
+            if x[0] in ("var",) and isinstance(x[1], list):
+                acc.add((x[1][1], x[1][2]))
+            if x[0] in ("access", "update") and isinstance(x[1], list):
+                acc.add((x[1][1], x[1][2]))
+            for y in x:
+                reads(y, acc)
+    for b in headers:
+        if b[3] and b[3][-1][0] == "if":
+            reads(b[3][-1][2], names)
+    changed = True
+    while changed:
+        changed = False
+        for b in blocks:
+            for st in b[3]:
+                if st[0] == "subst" and (st[2][1], st[2][2]) in names:
+                    acc = set()
+                    reads(st[4], acc)
+                    if not acc <= names:
+                        names |= acc
+                        changed = True
+    return names
+
+
+def check_degrees(pre, ssa, p, base, direction, names, max_steps=400, idoms=None, audit=None, stats=None, npoints=5):
     """Degree claims along the line base + t*direction (t = 0..4) in the space of the indeterminates `names`.
     A claim `degree <= d` on a node is judged in every iteration context (the loops the run is in with their
     iteration numbers, visit number) on the runs that reach the node in that context: their values must lie on a
@@ -487,11 +520,12 @@ def check_degrees(pre, ssa, p, base, direction, names, max_steps=400, idoms=None
     (a value that depends on the number of iterations is piecewise in the valuation, not a low-degree polynomial). Returns (bad, exercised, diverged)."""
     runs = []
     zero_base = all(v == 0 for k, v in base.items() if k != "__elem__")
-    for t in range(5):
+    frozen = direction.get("__frozen__", ())      # names of signal arrays whose elements do not move along the line
+    for t in range(npoints):
         inputs = dict(base)
         for n in names:
             inputs[n] = (base.get(n, 0) + t * direction.get(n, 0)) % p
-        inputs["__elem__"] = (lambda name, idxs, t=t: (elem_hash(name, idxs, 1, p, zero_base) + t * elem_hash(name, idxs, 2, p, zero_base)) % p)
+        inputs["__elem__"] = (lambda name, idxs, t=t: (elem_hash(name, idxs, 1, p, zero_base) + (0 if name in frozen else t) * elem_hash(name, idxs, 2, p, zero_base)) % p)
         rr = Run(pre, ssa, p, inputs, max_steps)
         rr.idoms = idoms
         runs.append(rr.run())
@@ -516,6 +550,12 @@ def check_degrees(pre, ssa, p, base, direction, names, max_steps=400, idoms=None
         stats["runs_cut_by_the_step_limit"] = stats.get("runs_cut_by_the_step_limit", 0) + sum(1 for r in runs if r.cut)
         stats["phi_statements_met_with_their_variable_assigned"] = stats.get("phi_statements_met_with_their_variable_assigned", 0) + sum(r.phi_claims_seen for r in runs)
         stats["component_port_reads_as_indeterminates"] = stats.get("component_port_reads_as_indeterminates", 0) + sum(r.comp_reads for r in runs)
+        if npoints > 5:
+            stats["lines_of_nine_points"] = stats.get("lines_of_nine_points", 0) + 1
+        if direction.get("__loopfixed__"):
+            stats["lines_with_the_loop_bounding_signals_held_fixed"] = stats.get("lines_with_the_loop_bounding_signals_held_fixed", 0) + 1
+            if not sigdep:
+                stats["of_these_with_equal_trip_counts_on_all_runs"] = stats.get("of_these_with_equal_trip_counts_on_all_runs", 0) + 1
         if sigdep:
             stats["lines_with_signal_dependent_trip_counts"] = stats.get("lines_with_signal_dependent_trip_counts", 0) + 1
     tables = [{(pos, n): (val, cd) for pos, n, val, cv, cd in r.obs if cd != "-"} for r in runs]
@@ -535,8 +575,13 @@ def check_degrees(pre, ssa, p, base, direction, names, max_steps=400, idoms=None
         hi = DEG_N[cd[2]]
         if hi > 2:
             continue
+        # a run in which the value is unknown there (an index outside the array, a call) drops out; the others are judged
         if any(v is UNK for _, v, _ in pts):
-            continue
+            pts = [q for q in pts if q[1] is not UNK]
+            if stats is not None:
+                stats["points_dropped_because_the_value_is_unknown"] = stats.get("points_dropped_because_the_value_is_unknown", 0) + 1
+            if not pts:
+                continue
         if len(pts) < hi + 2:
             # reached in this iteration context by too few of the runs to refute a polynomial of that degree
             count("discarded_signal_dependent_paths")
@@ -547,7 +592,7 @@ def check_degrees(pre, ssa, p, base, direction, names, max_steps=400, idoms=None
             if any(fl is None for fl in flat) or len(set(len(fl) for fl in flat)) != 1:
                 continue
             exercised += 1
-            if len(pts) < 5:
+            if len(pts) < npoints:
                 count("claims_judged_on_signal_dependent_paths")
             for j in range(len(flat[0])):
                 col = [(pt[0], fl[j]) for pt, fl in zip(pts, flat)]
@@ -556,7 +601,7 @@ def check_degrees(pre, ssa, p, base, direction, names, max_steps=400, idoms=None
                     break
             continue
         exercised += 1
-        if len(pts) < 5:
+        if len(pts) < npoints:
             count("claims_judged_on_signal_dependent_paths")
         elif sigdep:
             count("claims_judged_on_all_five_runs_of_such_lines")
